@@ -116,6 +116,7 @@ func contractMentions(c *Contract, p string) bool {
 
 func runCheck(o *checkOpts) int {
 	start := time.Now()
+	thoroughDerives := map[string]string{} // callee -> lemma client that is only run in the thorough tier
 	seed, _ := strconv.Atoi(os.Getenv("VERIF_SEED"))
 	prog, err := loadProgram(o.repo)
 	var all []*Obligation
@@ -142,6 +143,12 @@ func runCheck(o *checkOpts) int {
 					continue
 				}
 				if o.only != "" && fi.FullName() != o.only && fi.Key != o.only {
+					continue
+				}
+				if fi.Spec.ThoroughOnly && o.tier != "thorough" && o.only == "" {
+					if fi.Spec.Derives != "" {
+						thoroughDerives[fi.Spec.Derives] = fi.FullName()
+					}
 					continue
 				}
 				fis = append(fis, fi)
@@ -351,8 +358,41 @@ func runCheck(o *checkOpts) int {
 		}
 	}
 	meta := loadMeta(o.prop)
+	// trusted postconditions that a lemma client of this run derives from the proved ones
+	derived := map[string]string{}
+	if prog != nil {
+		for _, pk := range prog.Pkgs {
+			for _, fi := range pk.Funcs {
+				if fi.Spec == nil || fi.Spec.Derives == "" || !contractMentions(fi.Spec, o.prop) {
+					continue
+				}
+				ok, n := true, 0
+				for _, ob := range all {
+					if ob.Func == fi.FullName() {
+						n++
+						if ob.Status != "proved" {
+							ok = false
+						}
+					}
+				}
+				if ok && n > 0 {
+					derived[fi.Spec.Derives] = fi.FullName()
+				}
+			}
+		}
+	}
 	var assumedList []string
 	for k := range assumed {
+		for callee, client := range derived {
+			if strings.HasPrefix(k, "trusted postcondition (NOT proved) of ") && strings.Contains(k, callee+":") {
+				k = strings.Replace(k, "trusted postcondition (NOT proved) of ", "postcondition used on trust at call sites but DERIVED from the proved postconditions by lemma client "+client+" (all its obligations discharged in this run): ", 1)
+			}
+		}
+		for callee, client := range thoroughDerives {
+			if strings.HasPrefix(k, "trusted postcondition (NOT proved) of ") && strings.Contains(k, callee+":") {
+				k = strings.Replace(k, "trusted postcondition (NOT proved) of ", "trusted postcondition (NOT proved in the quick tier; derived from the proved postconditions by lemma client "+client+", which is run in the thorough tier) of ", 1)
+			}
+		}
 		assumedList = append(assumedList, k)
 	}
 	sort.Strings(assumedList)
